@@ -247,19 +247,11 @@ func checkC03(w *World, r *Report) {
 					if pair[0] != ssa.Value(protocol) {
 						continue
 					}
-					add, ok := pair[1].(*ssa.BinOp)
-					if !ok || add.Op != token.ADD {
+					named, ok := protocolIdOf(pair[1])
+					if !ok {
 						continue
 					}
-					cst, ok := add.X.(*ssa.Const)
-					if !ok || cst.Value == nil || cst.Value.Kind() != constant.String || constant.StringVal(cst.Value) != "/" {
-						continue
-					}
-					nc, ok := add.Y.(*ssa.Call)
-					if !ok || !nc.Call.IsInvoke() || nc.Call.Method.Name() != "Name" {
-						continue
-					}
-					if nc.Call.Value == recv {
+					if named == recv {
 						return true
 					}
 				}
@@ -271,6 +263,9 @@ func checkC03(w *World, r *Report) {
 				// where protocol == "/"+Name() of that very element holds
 				for _, root := range provenance(recv, provOpts{}) {
 					call, ok := root.(*ssa.Call)
+					if ex, isEx := root.(*ssa.Extract); isEx && ex.Index == 0 {
+						call, ok = ex.Tuple.(*ssa.Call)
+					}
 					if !ok {
 						continue
 					}
@@ -811,20 +806,15 @@ func c03Register(w *World, r *Report) {
 			if f.Name() == "AddHandlerWithFunc" {
 				proto = args[1]
 			}
-			add, ok := proto.(*ssa.BinOp)
 			okp := false
-			if ok && add.Op == token.ADD {
-				if cst, ok := add.X.(*ssa.Const); ok && cst.Value != nil && constant.StringVal(cst.Value) == "/" {
-					if nc, ok := add.Y.(*ssa.Call); ok && nc.Call.IsInvoke() && nc.Call.Method.Name() == "Name" {
-						// receiver element of the handler's own list
-						for _, root := range provenance(nc.Call.Value, provOpts{}) {
-							if u, ok := root.(*ssa.UnOp); ok {
-								if ia, ok := u.X.(*ssa.IndexAddr); ok && chField != nil {
-									for _, lr := range provenance(ia.X, provOpts{}) {
-										if isLoadOfField(lr, chField) {
-											okp = true
-										}
-									}
+			if named, ok := protocolIdOf(proto); ok {
+				// receiver element of the handler's own list
+				for _, root := range provenance(named, provOpts{}) {
+					if u, ok := root.(*ssa.UnOp); ok {
+						if ia, ok := u.X.(*ssa.IndexAddr); ok && chField != nil {
+							for _, lr := range provenance(ia.X, provOpts{}) {
+								if isLoadOfField(lr, chField) {
+									okp = true
 								}
 							}
 						}
@@ -914,19 +904,11 @@ func c03LookupByExactName(h *ssa.Function, pidx int) bool {
 				if pair[0] != ssa.Value(prm) {
 					continue
 				}
-				add, ok := pair[1].(*ssa.BinOp)
-				if !ok || add.Op != token.ADD {
+				named, ok := protocolIdOf(pair[1])
+				if !ok {
 					continue
 				}
-				cst, ok := add.X.(*ssa.Const)
-				if !ok || cst.Value == nil || cst.Value.Kind() != constant.String || constant.StringVal(cst.Value) != "/" {
-					continue
-				}
-				nc, ok := add.Y.(*ssa.Call)
-				if !ok || !nc.Call.IsInvoke() || nc.Call.Method.Name() != "Name" {
-					continue
-				}
-				if sameElem(nc.Call.Value, rv) {
+				if sameElem(named, rv) {
 					found = true
 				}
 			}
@@ -936,4 +918,42 @@ func c03LookupByExactName(h *ssa.Function, pidx int) bool {
 		}
 	})
 	return done && okAll && nret > 0
+}
+
+// protocolIdOf: v is the protocol id of a channel — "/"+x.Name(), written in place or through a module helper
+// whose only result is "/"+p.Name() of its parameter p. Returns x.
+func protocolIdOf(v ssa.Value) (ssa.Value, bool) {
+	if add, ok := v.(*ssa.BinOp); ok && add.Op == token.ADD {
+		cst, ok := add.X.(*ssa.Const)
+		if !ok || cst.Value == nil || cst.Value.Kind() != constant.String || constant.StringVal(cst.Value) != "/" {
+			return nil, false
+		}
+		nc, ok := add.Y.(*ssa.Call)
+		if !ok || !nc.Call.IsInvoke() || nc.Call.Method.Name() != "Name" {
+			return nil, false
+		}
+		return nc.Call.Value, true
+	}
+	call, ok := v.(*ssa.Call)
+	if !ok {
+		return nil, false
+	}
+	h := call.Call.StaticCallee()
+	if h == nil || !inModule(h) || len(h.Blocks) != 1 {
+		return nil, false
+	}
+	ret, ok := h.Blocks[0].Instrs[len(h.Blocks[0].Instrs)-1].(*ssa.Return)
+	if !ok || len(ret.Results) != 1 {
+		return nil, false
+	}
+	inner, ok := protocolIdOf(ret.Results[0])
+	if !ok {
+		return nil, false
+	}
+	for i, p := range h.Params {
+		if ssa.Value(p) == inner && i < len(call.Call.Args) {
+			return call.Call.Args[i], true
+		}
+	}
+	return nil, false
 }
